@@ -29,6 +29,18 @@ def handleC14 : List String → String
       let f := parseFs fs
       s!"cli={showPath (resolveCli f (splitPath entryDir) i)} shared={showPath (resolveShared f (splitPath importerDir) i)}"
     | none => "bad-op")
+  | ["resolve2", fs, entryDir, imp1, imp2] =>
+    -- two imports of one entry file: each resolves on its own; what is loaded is the union
+    (match parseImp imp1, parseImp imp2 with
+    | some i1, some i2 =>
+      let f := parseFs fs
+      let one := fun i => match resolveCli f (splitPath entryDir) i with
+        | some p => [showPath (some p)]
+        | none => []
+      let all := (one i1 ++ one i2).eraseDups
+      let sorted := all.mergeSort (fun a b => a ≤ b)
+      s!"cli={if sorted.isEmpty then "none" else ",".intercalate sorted}"
+    | _, _ => "bad-op")
   | ["check", name] =>
     -- visibility scenarios of the harness: module `m` exports open_ and SHOWN
     let deps : List ModuleExports := [⟨"m", ["open_", "SHOWN"]⟩]
@@ -64,6 +76,8 @@ def handleC14 : List String → String
       let alias : Option String := match form.splitOn "-" with
         | [_, a] => some a
         | _ => none
+      -- `bare`: the name used without being imported by name — known iff the module exports it
+      if form == "bare" then (if bareKnown deps item then "accept" else "reject") else
       let rej := if form.startsWith "from" then rejectedItems deps ⟨.from_, segs, false, 0⟩ [⟨item, alias⟩]
                  else rejectedNames deps ⟨.module, segs ++ [item], false, 0⟩ []
       if rej.isEmpty then "accept" else "reject"
